@@ -18,6 +18,7 @@ CLAUSES = {
     "C09.classes": 40000,     # gtcount: ploidy+1 classes, >= 0, column sums n, == definition; gtfreq == counts/n
     "C09.projection": 50000,  # phased matrix and its unphased projection give the same answers
     "C09.dtype": 150000,       # requested dtypes honoured with equal values
+    "C09.history": 50000,      # live objects: after every in-place change every statistic == definition on the CURRENT raw calls
 }
 HOOKS_REQUIRED = [
     "repo-code",
@@ -25,6 +26,11 @@ HOOKS_REQUIRED = [
     "locus fixed at 0", "all-heterozygous locus", "singleton locus",
     "single taxon", "single marker", "non-contiguous raw calls", "ntaxa > 200", "square matrix (ntaxa == nvrnt)", "non-diploid", "fully fixed matrix",
     "subject via DenseUnphasedGenotyping", "subject DenseGenotypeMatrix built directly",
+    "history step: after in-place taxa removal", "history step: after in-place taxa append",
+    "history step: after in-place variant removal", "history step: after in-place variant append",
+    "history step: after in-place taxa reorder/sort/group", "history step: after in-place variant reorder/sort/group",
+    "history step: after assignment through the mat setter", "history step: after element assignment into mat",
+    "history step: result object of select_*/delete_*", "history step: unchanged object queried again",
 ]
 RULE = ("seeded class-based matrices: ploidy 2 (65 %) or 1/3/4/6; ntaxa from {1,2,3,7,49,98,103,107,161}, from the sizes "
         "<= 200 where (1/(ploidy*n))*(ploidy*n) != 1.0, from 1..6, from 1..200 and (2 %) from 201..1500; raw calls C-ordered, "
@@ -34,7 +40,12 @@ RULE = ("seeded class-based matrices: ploidy 2 (65 %) or 1/3/4/6; ntaxa from {1,
         "Each matrix is examined as DensePhasedGenotypeMatrix and as its unphased projection (alternately built directly "
         "and through DenseUnphasedGenotyping.genotype); every statistic is called with the default dtype and one requested "
         "dtype (spelt as str / python type / numpy type / numpy.dtype). Non-trivial: any matrix other than "
-        "1 taxon x 1 marker; distinct = digest of (ploidy, raw calls).")
+        "1 taxon x 1 marker; distinct = digest of (ploidy, raw calls).  Histories (C09.history): a live phased / unphased "
+        "(direct or via genotyping) object with unsorted labels gets a complete round of queries, then 3-7 steps drawn from "
+        "remove_/append_/reorder_/sort_/group_ taxa and variants, assignment through the mat setter, element writes into "
+        "obj.mat (locus fixed / lost, taxon row, single call), select_*/delete_*/copy/deepcopy result objects and plain "
+        "re-queries; after every step all statistics (and codings) are queried again, a quarter of them first under a "
+        "requested dtype, and judged against the oracle evaluated on the object's current mat.")
 ASSUME = [
     "alleles are coded 0/1 per chromosome copy (phased) or 0..ploidy per taxon (unphased); other values are out of domain",
     "meh: (ploidy/m)*sum p(1-p) (2pq averaged over loci for diploids); for ploidy != 2 the gene-diversity reading "
@@ -48,6 +59,10 @@ ASSUME = [
     "asserted to be honoured (result dtype), not its values",
     "float comparison: |a-b| <= 1e-9 + 1e-12 (all quantities are O(1)); float32 requests: 2**-20",
     "numpy integer summation / comparison used by the monitor's comparisons is trusted",
+    "history clause: the raw calls are whatever the object's mat holds after the operation (the operations' own "
+    "correctness is property C03); an operation that raises is counted under 'raised' and the (unchanged) object is "
+    "judged again; a history stops when an operation leaves something that is not a valid genotype matrix; writing "
+    "elements of obj.mat is treated as a legitimate way of changing the raw calls",
     "attribution: when an object's afreq() (resp. gtcount()) is itself reported in a case, statistics of the same object "
     "that are exactly what follows from the wrong value (afixed/apoly/maf/complement, resp. gtfreq), requested-dtype "
     "variants equal to the reported default answer, and phased-vs-unphased mismatches on an already reported statistic "
@@ -107,10 +122,17 @@ MCLS = ["patterns", "square", "cube", "all-fixed-1", "all-fixed-0", "all-fixed-m
 MCLW = numpy.array([0.52, 0.13, 0.05, 0.07, 0.04, 0.06, 0.05, 0.08])
 
 
-def gen_case(g):
+def gen_case(g, small=False):
     P = 2 if g.random() < 0.65 else int(g.choice(PLOIDIES))
     r = g.random()
-    if r < 0.40:
+    if small:   # start matrices of operation histories: hostile sizes kept, everything else small
+        if r < 0.30:
+            n = int(g.choice(NS_HOSTILE)); ncls = "n hostile list"
+        elif r < 0.60:
+            n = int(g.integers(1, 7)); ncls = "n tiny"
+        else:
+            n = int(g.integers(2, 41)); ncls = "n random"
+    elif r < 0.40:
         n = int(g.choice(NS_HOSTILE)); ncls = "n hostile list"
     elif r < 0.58 and BADN[P]:
         n = int(g.choice(BADN[P])); ncls = "n with inexact reciprocal"
@@ -123,6 +145,8 @@ def gen_case(g):
     m = 1 if g.random() < 0.08 else int(g.integers(1, 41))
     if n > 200:
         m = min(m, 8)
+    if small:
+        m = min(m, int(g.integers(1, 13)))
     mcls = MCLS[int(g.choice(len(MCLS), p=MCLW))]
     if mcls == "square":
         if n > 60:
@@ -218,12 +242,16 @@ class Subject:
         self.res = {}          # default-dtype answers by statistic
         self.bad = set()       # statistics deviating from the definition in this case (reported or attributed)
         self.reported = set()  # ... of which keyed as a violation of their own
+        self.clause = None     # history mode: every judgement is an evaluation of this clause ...
+        self.icls = None       # ... keyed by this input class (the most recent change of the live object)
 
 
 def do_call(ctx, S, meth, args, kwargs, icls, W, coords):
     """Affirmative-result policy: a summary call on a valid matrix must return."""
     site = site_of(S.obj, meth)
     ctx.ok("C09.returns")
+    if S.icls is not None:
+        icls = "%s; %s" % (S.icls, icls)
     try:
         out = getattr(S.obj, meth)(*args, **kwargs)
     except Exception as e:
@@ -233,7 +261,7 @@ def do_call(ctx, S, meth, args, kwargs, icls, W, coords):
                       witness=dict(W, subject=S.kind), coords=coords)
         return site, None, False
     if not numpy.array_equal(S.obj.mat, S.raw):   # oracle validity: the raw calls must not be modified by a summary
-        ctx.violation("C09.definition", site, "leaves the raw allele calls unchanged", icls, witness=dict(W, subject=S.kind), coords=coords)
+        ctx.violation(S.clause or "C09.definition", site, "leaves the raw allele calls unchanged", icls, witness=dict(W, subject=S.kind), coords=coords)
         S.obj.mat = S.raw.copy()
     return site, out, True
 
@@ -251,6 +279,9 @@ def judge_default(ctx, S, name, site, out, R, iN, iP, W, coords):
     P, n, m, N = R.P, R.n, R.m, R.N
     w = dict(W, subject=S.kind, got=out)
     D, B, C = "C09.definition", "C09.boundary", "C09.classes"
+    if S.clause is not None:
+        D = B = C = S.clause
+        iN = iP = S.icls
 
     def chk(clause, cond, rel, icls, **kw):
         ok = ctx.check(clause, cond, site, rel, icls, coords=coords, **kw)
@@ -350,7 +381,9 @@ def judge_default(ctx, S, name, site, out, R, iN, iP, W, coords):
 def judge_codings(ctx, S, R, iP, W, coords):
     if R.P != 2:
         return
-    D = "C09.definition"
+    D = S.clause or "C09.definition"
+    if S.icls is not None:
+        iP = S.icls
     for fmt in FORMATS:
         site, out, ok = do_call(ctx, S, "mat_asformat", (fmt,), {}, "format " + fmt, W, coords)
         if not ok:
@@ -372,10 +405,12 @@ def judge_codings(ctx, S, R, iP, W, coords):
 
 def judge_dtype(ctx, S, name, site, dt, out, R, W, coords):
     """Requested dtype honoured, with values equal to the default answer (itself judged against the definition)."""
-    T = "C09.dtype"
+    T = S.clause or "C09.dtype"
     kind = KIND[name]
     want = numpy.dtype(dt)
     icls = "%s as %s" % (kind, dtname(dt))
+    if S.icls is not None:
+        icls = "%s; %s" % (S.icls, icls)
     w = dict(W, subject=S.kind, requested=dtspell(dt), got=out, got_dtype=str(getattr(out, "dtype", type(out).__name__)))
     got_dt = getattr(out, "dtype", None)
     ok = ctx.check(T, got_dt is not None and numpy.dtype(got_dt) == want, site, "result dtype == requested dtype", icls, witness=w, coords=coords)
@@ -406,15 +441,16 @@ def judge_dtype(ctx, S, name, site, dt, out, R, W, coords):
         ctx.check(T, e <= tol, site, "values == %s under requested dtype" % ref, icls, witness=dict(w, err=e, expected=exp), coords=coords)
 
 
-def run_subject(ctx, S, R, g, iN, iP, W, coords):
+def run_subject(ctx, S, R, g, iN, iP, W, coords, history=False):
+    """Query every statistic of ``S.obj`` and judge it against ``R``.  Stateless mode: default dtype, then one requested
+    dtype per statistic.  History mode: default dtype, for a quarter of the statistics preceded by a requested-dtype call."""
+    BC = S.clause or "C09.boundary"
+    if S.icls is not None:
+        iN = iP = S.icls
     order = list(STATS)
     g.shuffle(order)
     order.sort(key=lambda s: 0 if s in ("afreq", "gtcount") else 1)   # roots before the statistics derived from them (stable)
-    for name in order:
-        site, out, ok = do_call(ctx, S, name, (), {}, "default dtype", W, coords)
-        if ok:
-            S.res[name] = out
-            judge_default(ctx, S, name, site, out, R, iN, iP, W, coords)
+    def requested():
         pool = {"count": COUNT_DT, "flag": FLAG_DT, "freq": FREQ_DT}[KIND[name]]
         dt = pool[int(g.integers(len(pool)))]
         if name == "tacount" and g.random() < 0.2:
@@ -424,6 +460,16 @@ def run_subject(ctx, S, R, g, iN, iP, W, coords):
                                   "%s as %s" % (KIND[name], dtname(dt)), dict(W, requested=dtspell(dt)), coords)
         if ok2:
             judge_dtype(ctx, S, name, site, dt, out2, R, W, coords)
+
+    for name in order:
+        if history and g.random() < 0.25:
+            requested()     # requested dtype *before* the default call (a result remembered under the wrong dtype shows here)
+        site, out, ok = do_call(ctx, S, name, (), {}, "default dtype", W, coords)
+        if ok:
+            S.res[name] = out
+            judge_default(ctx, S, name, site, out, R, iN, iP, W, coords)
+        if not history:
+            requested()
     judge_codings(ctx, S, R, iP, W, coords)
     # fixation flag is the exact complement of the polymorphism flag (as returned)
     fx, po = S.res.get("afixed"), S.res.get("apoly")
@@ -435,10 +481,10 @@ def run_subject(ctx, S, R, g, iN, iP, W, coords):
             comp = False
         if not comp and "afreq" in S.bad and ("afixed" in S.bad or "apoly" in S.bad) and not (S.reported & {"afixed", "apoly"}):
             # both flags are either right or exactly what the reported afreq implies: same finding
-            ctx.ok("C09.boundary")
+            ctx.ok(BC)
             ctx.sumnote("afixed != not apoly only as a consequence of the reported afreq violation")
         else:
-            ctx.check("C09.boundary", comp, site, "afixed == not apoly", iN,
+            ctx.check(BC, comp, site, "afixed == not apoly", iN,
                       witness=dict(W, subject=S.kind, afixed=fx, apoly=po, counts=R.c, copies=R.N), coords=coords)
 
 
@@ -571,13 +617,222 @@ def one_case(ctx, c):
         judge_projection(ctx, SP, SU, R, iN, iP, W, coords)
 
 
-QUICK_TOTAL, THOROUGH_TOTAL = 16000, 320000
+# ------------------------------------------------------------------ C09.history: statistics of a *live* object
+# The statistics must describe the raw calls the object holds *now*.  A history interleaves complete rounds of queries
+# with changes of the live object; after every step every statistic is judged against the oracle evaluated on the
+# object's current ``mat`` (whatever the operation left there: the correctness of the operations themselves is C03's
+# business, an operation that raises is counted under ``raised``).
+H_FRESH = "fresh object, first round of queries"
+H_REPEAT = "unchanged object queried again"
+OPS = ["remove_taxa", "append_taxa", "remove_vrnt", "append_vrnt", "reorder_taxa", "reorder_vrnt", "sort_taxa", "sort_vrnt",
+       "group_taxa", "group_vrnt", "mat_setter", "element_write", "derived_object", "copy_then_write", "requery"]
+OPW = numpy.array([0.12, 0.10, 0.07, 0.07, 0.05, 0.05, 0.04, 0.05, 0.05, 0.07, 0.07, 0.12, 0.06, 0.04, 0.04])
+OP_ICLS = {
+    "remove_taxa": "after in-place taxa removal", "append_taxa": "after in-place taxa append",
+    "remove_vrnt": "after in-place variant removal", "append_vrnt": "after in-place variant append",
+    "reorder_taxa": "after in-place taxa reorder/sort/group", "sort_taxa": "after in-place taxa reorder/sort/group",
+    "group_taxa": "after in-place taxa reorder/sort/group",
+    "reorder_vrnt": "after in-place variant reorder/sort/group", "sort_vrnt": "after in-place variant reorder/sort/group",
+    "group_vrnt": "after in-place variant reorder/sort/group",
+    "mat_setter": "after assignment through the mat setter", "element_write": "after element assignment into mat",
+}
+
+
+def gen_block(g, P, n, m, phased):
+    """Raw calls for ``n`` taxa x ``m`` loci: (P,n,m) 0/1 for a phased object, (n,m) 0..P for an unphased one."""
+    pats = [PATS[int(g.choice(len(PATS), p=PATW))] for _ in range(m)]
+    x = numpy.ascontiguousarray(numpy.stack([gen_locus(g, P, n, pat) for pat in pats], axis=2).astype("int8"))
+    return x if phased else x.sum(0, dtype="int8")
+
+
+def raw_ok(obj, P, phased):
+    """The live object still holds a valid genotype matrix (otherwise the history stops: not a C09 matter)."""
+    x = getattr(obj, "mat", None)
+    if not isinstance(x, numpy.ndarray) or x.dtype != numpy.dtype("int8") or x.ndim != (3 if phased else 2):
+        return False
+    if min(x.shape) < 1 or (phased and x.shape[0] != P) or obj.ploidy != P:
+        return False
+    return bool(x.min() >= 0 and x.max() <= (1 if phased else P))
+
+
+def judge_state(ctx, obj, kind, P, phased, label, g, W, trace, coords):
+    raw = obj.mat.copy()
+    R = O.reference(raw.tolist()) if phased else O.reference_unphased(raw.tolist(), P)
+    S = Subject(kind, obj, raw)
+    S.clause, S.icls = "C09.history", label
+    w = dict(W, history=list(trace), **{"current mat": raw})
+    run_subject(ctx, S, R, g, label, label, w, coords, history=True)
+    ctx.sumnote("history states judged")
+    return S
+
+
+def sel_indices(g, n):
+    """A non-empty proper selection of range(n) as int / slice / sorted index array (n >= 2)."""
+    r = g.random()
+    if r < 0.25:
+        return int(g.integers(n))
+    if r < 0.40:
+        length = int(g.integers(1, n)); a = int(g.integers(0, n - length + 1))
+        return slice(a, a + length)
+    return numpy.sort(g.permutation(n)[: int(g.integers(1, n))])
+
+
+def one_history(ctx, c):
+    from pybrops.popgen.gmat.DensePhasedGenotypeMatrix import DensePhasedGenotypeMatrix
+    from pybrops.popgen.gmat.DenseGenotypeMatrix import DenseGenotypeMatrix
+    from pybrops.breed.prot.gt.DenseUnphasedGenotyping import DenseUnphasedGenotyping
+    repo_code(ctx)
+    g = ctx.rng("hist", c)
+    P, n, m, mat, mcls, ncls, pats, _, layout = gen_case(g, small=True)
+    coords = [c, "hist"]
+    how = ["phased", "unphased built directly", "unphased via DenseUnphasedGenotyping"][c % 3]
+    phased = how == "phased"
+    # labels: unsorted on purpose, so that sort_* / group_* really permute the raw calls; sometimes absent
+    meta = {}
+    if g.random() < 0.85:
+        meta["taxa"] = numpy.array(["t%03d" % i for i in g.permutation(n)], dtype=object)
+        meta["taxa_grp"] = g.integers(0, 3, n).astype("int64")
+    if g.random() < 0.85:
+        meta["vrnt_chrgrp"] = g.integers(1, 4, m).astype("int64")
+        meta["vrnt_phypos"] = g.permutation(m).astype("int64") * 7 + 1
+        meta["vrnt_name"] = numpy.array(["m%d" % j for j in range(m)], dtype=object)
+    try:
+        ph = DensePhasedGenotypeMatrix(mat.copy(), **{k: v.copy() for k, v in meta.items()})
+        if how == "phased":
+            obj = ph
+        elif how == "unphased built directly":
+            obj = DenseGenotypeMatrix(mat.sum(0, dtype="int8"), ploidy=P, **{k: v.copy() for k, v in meta.items()})
+        else:
+            obj = DenseUnphasedGenotyping().genotype(ph)
+            obj.mat = obj.mat.copy()
+    except Exception as e:
+        ctx.raised("history: construction", e)
+        return
+    kind = "%s (%s)" % (type(obj).__name__, how)
+    nsteps = int(g.integers(3, 8))
+    ctx.case("history/%s/ploidy %d/%s" % (how, P, ncls), P, mat, how, nsteps)
+    W = {"ploidy": P, "start ntaxa": n, "start nvrnt": m, "subject": kind, "labels": sorted(meta)}
+    if c % 97 == 0:
+        ctx.sample({"family": "history", "subject": kind, "ploidy": P, "ntaxa": n, "nvrnt": m, "labels": sorted(meta), "steps": nsteps,
+                    "start mat": mat[:, :3, :].tolist()})
+    trace = []
+    if not raw_ok(obj, P, phased):
+        ctx.sumnote("history stopped: object does not hold a valid genotype matrix"); return
+    judge_state(ctx, obj, kind, P, phased, H_FRESH, g, W, trace, coords)
+    label = H_FRESH
+    ta, va = obj.taxa_axis, obj.vrnt_axis
+    for step in range(nsteps):
+        op = OPS[int(g.choice(len(OPS), p=OPW))]
+        n, m = obj.mat.shape[ta], obj.mat.shape[va]
+        if (op == "remove_taxa" and n < 2) or (op == "remove_vrnt" and m < 2) or (op == "derived_object" and (n < 2 or m < 2)):
+            op = "element_write"
+        desc = op
+        extra = []     # (object, kind, label) judged besides the live object
+        try:
+            if op == "remove_taxa":
+                ix = sel_indices(g, n); desc = "remove_taxa(%s)" % (ix if not isinstance(ix, numpy.ndarray) else ix.tolist())
+                obj.remove_taxa(ix)
+            elif op == "remove_vrnt":
+                ix = sel_indices(g, m); desc = "remove_vrnt(%s)" % (ix if not isinstance(ix, numpy.ndarray) else ix.tolist())
+                obj.remove_vrnt(ix)
+            elif op == "append_taxa":
+                k = int(g.integers(1, 5)); blk = gen_block(g, P, k, m, phased)
+                kw = {}
+                if obj.taxa is not None:
+                    kw["taxa"] = numpy.array(["a%d_%d" % (step, i) for i in range(k)], dtype=object)
+                if obj.taxa_grp is not None:
+                    kw["taxa_grp"] = g.integers(0, 4, k).astype("int64")
+                desc = "append_taxa(%d taxa%s)" % (k, ", as matrix object" if g.random() < 0.3 else "")
+                if desc.endswith("object)"):
+                    other = (DensePhasedGenotypeMatrix(blk, **kw) if phased else DenseGenotypeMatrix(blk, ploidy=P, **kw))
+                    obj.append_taxa(other)
+                else:
+                    obj.append_taxa(blk, **kw)
+            elif op == "append_vrnt":
+                k = int(g.integers(1, 4)); blk = gen_block(g, P, n, k, phased)
+                kw = {}
+                if obj.vrnt_chrgrp is not None:
+                    kw["vrnt_chrgrp"] = g.integers(1, 4, k).astype("int64")
+                if obj.vrnt_phypos is not None:
+                    kw["vrnt_phypos"] = g.integers(1, 300, k).astype("int64")
+                if obj.vrnt_name is not None:
+                    kw["vrnt_name"] = numpy.array(["v%d_%d" % (step, i) for i in range(k)], dtype=object)
+                desc = "append_vrnt(%d loci)" % k
+                obj.append_vrnt(blk, **kw)
+            elif op in ("reorder_taxa", "reorder_vrnt"):
+                perm = g.permutation(n if op == "reorder_taxa" else m); desc = "%s(%s)" % (op, perm.tolist())
+                getattr(obj, op)(perm)
+            elif op in ("sort_taxa", "sort_vrnt", "group_taxa", "group_vrnt"):
+                desc = op + "()"
+                getattr(obj, op)()
+            elif op == "mat_setter":
+                new = gen_block(g, P, n, m, phased); desc = "obj.mat = <new calls of the same shape>"
+                obj.mat = new
+            elif op == "element_write":
+                x = obj.mat
+                if not x.flags.writeable:
+                    obj.mat = x = x.copy()
+                j = int(g.integers(m)); i = int(g.integers(n)); r = g.random()
+                hi = 1 if phased else P
+                col = (slice(None), slice(None), j) if phased else (slice(None), j)
+                row = (slice(None), i, slice(None)) if phased else (i, slice(None))
+                if r < 0.30:
+                    x[col] = hi; desc = "obj.mat[locus %d] = %d (locus becomes fixed)" % (j, hi)
+                elif r < 0.50:
+                    x[col] = 0; desc = "obj.mat[locus %d] = 0 (allele lost)" % j
+                elif r < 0.70:
+                    v = int(g.integers(0, hi + 1)); x[row] = v; desc = "obj.mat[taxon %d] = %d" % (i, v)
+                else:
+                    cell = (int(g.integers(P)), i, j) if phased else (i, j)
+                    v = int(x[cell]); nv = (1 - v) if phased else int((v + 1 + g.integers(0, hi)) % (hi + 1))
+                    x[cell] = nv; desc = "obj.mat[%s] = %d (was %d)" % (cell, nv, v)
+            elif op == "derived_object":
+                which = ["select_taxa", "select_vrnt", "delete_taxa", "delete_vrnt"][int(g.integers(4))]
+                size = n if which.endswith("taxa") else m
+                ix = numpy.sort(g.permutation(size)[: int(g.integers(1, size))])
+                desc = "%s(%s) -> new object" % (which, ix.tolist())
+                extra.append((getattr(obj, which)(ix), "result object of " + which.split("_")[0] + "_*"))
+            elif op == "copy_then_write":
+                which = ["copy", "deepcopy"][int(g.integers(2))]
+                twin = getattr(obj, which)()
+                x = obj.mat
+                if not x.flags.writeable:
+                    obj.mat = x = x.copy()
+                j = int(g.integers(m)); hi = 1 if phased else P
+                x[(slice(None), slice(None), j) if phased else (slice(None), j)] = hi
+                desc = "%s() -> new object; then obj.mat[locus %d] = %d on the original" % (which, j, hi)
+                extra.append((twin, "result object of copy/deepcopy"))
+                op = "element_write"
+            else:
+                desc = "no change"
+        except Exception as e:
+            ctx.raised("history: " + op, e)
+            desc += " [raised %s]" % type(e).__name__
+        ctx.hook("history step: " + (OP_ICLS.get(op) or {"derived_object": "result object of select_*/delete_*", "requery": H_REPEAT}[op]))
+        trace.append(desc)
+        if not raw_ok(obj, P, phased):
+            ctx.sumnote("history stopped: operation left an invalid genotype matrix (not a C09 matter)")
+            return
+        if op in OP_ICLS and "[raised" not in desc:
+            label = OP_ICLS[op]
+        elif label == H_FRESH:
+            label = H_REPEAT
+        judge_state(ctx, obj, kind, P, phased, label, g, W, trace, coords)
+        for o2, lab2 in extra:
+            if raw_ok(o2, P, phased):
+                judge_state(ctx, o2, "%s [%s]" % (type(o2).__name__, lab2), P, phased, lab2, g, W, trace, coords)
+
+
+FAMILIES = {"mat": (one_case, 9000, 260000), "hist": (one_history, 1500, 24000)}
+QUICK_TOTAL, THOROUGH_TOTAL = FAMILIES["mat"][1], FAMILIES["mat"][2]
 
 
 def run_shard(ctx):
-    for c in ctx.case_ids(QUICK_TOTAL, THOROUGH_TOTAL):
-        one_case(ctx, c)
+    for name, (fn, q, t) in FAMILIES.items():
+        for c in ctx.case_ids(q, t):
+            fn(ctx, c)
 
 
 def replay(ctx, coords):
-    one_case(ctx, int(coords[0]))
+    fam = coords[1] if len(coords) > 1 and coords[1] in FAMILIES else "mat"
+    FAMILIES[fam][0](ctx, int(coords[0]))
